@@ -34,6 +34,8 @@ impl FdBackend {
             opts.custom_flags(libc::O_SYNC);
         }
 
+        #[cfg(walrus_verif)]
+        crate::wal::verif::io_check(crate::wal::verif::IoKind::Open, path, if use_o_sync { "O_SYNC" } else { "" }, 0, 0)?;
         let file = opts.open(path)?;
         let metadata = file.metadata()?;
         let len = metadata.len() as usize;
@@ -137,6 +139,8 @@ fn create_storage_impl(path: &str) -> std::io::Result<StorageImpl> {
         let use_o_sync = should_use_o_sync();
         Ok(StorageImpl::Fd(FdBackend::new(path, use_o_sync)?))
     } else {
+        #[cfg(walrus_verif)]
+        crate::wal::verif::io_check(crate::wal::verif::IoKind::Open, path, "MMAP", 0, 0)?;
         let file = OpenOptions::new().read(true).write(true).open(path)?;
         // SAFETY: `file` is opened read/write and lives for the duration of this
         // mapping; `memmap2` upholds aliasing invariants for `MmapMut`.
@@ -148,6 +152,8 @@ fn create_storage_impl(path: &str) -> std::io::Result<StorageImpl> {
 #[derive(Debug)]
 pub(crate) struct SharedMmap {
     storage: StorageImpl,
+    #[cfg(walrus_verif)]
+    vpath: String,
     last_touched_at: AtomicU64,
 }
 
@@ -169,6 +175,8 @@ impl SharedMmap {
             .as_millis() as u64;
         Ok(Arc::new(Self {
             storage,
+            #[cfg(walrus_verif)]
+            vpath: path.to_string(),
             last_touched_at: AtomicU64::new(now_ms),
         }))
     }
@@ -178,7 +186,16 @@ impl SharedMmap {
         debug_assert!(offset <= self.storage.len());
         debug_assert!(self.storage.len() - offset >= data.len());
 
+        #[cfg(walrus_verif)]
+        let data = crate::wal::verif::store(
+            &self.vpath,
+            offset,
+            data,
+            matches!(self.storage, StorageImpl::Mmap(_)),
+        );
         self.storage.write(offset, data);
+        #[cfg(walrus_verif)]
+        crate::wal::verif::after_store();
 
         let now_ms = SystemTime::now()
             .duration_since(SystemTime::UNIX_EPOCH)
@@ -189,6 +206,8 @@ impl SharedMmap {
 
     pub(crate) fn read(&self, offset: usize, dest: &mut [u8]) {
         debug_assert!(offset + dest.len() <= self.storage.len());
+        #[cfg(walrus_verif)]
+        crate::wal::verif::load(&self.vpath, offset, dest.len());
         self.storage.read(offset, dest);
     }
 
@@ -198,6 +217,8 @@ impl SharedMmap {
     }
 
     pub(crate) fn flush(&self) -> std::io::Result<()> {
+        #[cfg(walrus_verif)]
+        crate::wal::verif::io_check(crate::wal::verif::IoKind::Flush, &self.vpath, "", 0, 0)?;
         self.storage.flush()
     }
 
